@@ -969,6 +969,7 @@ type feed struct {
 	cd  gen.Codecs
 	n   uint32
 	err error // first error of a send on the feed's connection
+	key int   // see probe
 }
 
 // startFeed publishes a healthy avc+aac stream "c13feed" (so that DESCRIBE is answered with an SDP) with an RTMP
@@ -1101,6 +1102,7 @@ func runRtspOnce(c RtspCase) *pbt.Violation {
 	pre := c.prefix(&cseq)
 	nPrefix := cseq // requests of the valid prefix = responses to expect
 	tail := c.tail(&cseq)
+	fd.key = len(tail) + len(pre)
 	conn := s.RtspConn()
 	if nPrefix > 0 {
 		// the valid prefix first; its responses are read, so that a prefix lal refuses is counted instead of silently
